@@ -72,13 +72,13 @@ def gen_case(rng, i, tier):
                         parts.append(('missing-path', 'no.such.path', None))
                     else:
                         parts.append(('missing-env', 'VERIF_UNSET_%d' % rng.randint(0, 9), None))
-            uses.append({'kind': kind, 'parts': parts, 'at': 'u%d' % u})
+            uses.append({'kind': kind, 'parts': parts, 'at': 'u%d' % u, 'wrap': rng.choice([0, 0, 1, 2])})
         elif kind == 'env-value':
             name = rng.choice(list(env.keys())) if rng.random() < 0.9 else 'VERIF_UNSET_X'
-            uses.append({'kind': kind, 'name': name, 'at': 'u%d' % u})
+            uses.append({'kind': kind, 'name': name, 'at': 'u%d' % u, 'wrap': rng.choice([0, 0, 1, 2])})
         else:
             name = rng.choice(list(env.keys())) if rng.random() < 0.9 else 'VERIF_UNSET_X'
-            uses.append({'kind': kind, 'name': name, 'at': 'u%d' % u})
+            uses.append({'kind': kind, 'name': name, 'at': 'u%d' % u, 'wrap': rng.choice([0, 0, 1, 2])})
     return {'doc': doc, 'uses': uses, 'group': group, 'repeat': repeat, 'cli': i % 61 == 0}
 
 
@@ -138,6 +138,17 @@ def build(case, env):
                 missing = True
             v = env.get(u['name'])
             expect[u['at']] = [{v: 1, 'fixedkey': 2} if v != 'fixedkey' else None] * copies
+    # nesting: the use sits below a list / map-in-list instead of at the top level
+    for u in case['uses']:
+        w = u.get('wrap', 0)
+        if not w:
+            continue
+        at = u['at']
+
+        def wrap(x):
+            return {'in': [0, {'v': x}]} if w == 1 else [[x], {'deep': {'er': x}}]
+        d[at] = wrap(d[at])
+        expect[at] = [wrap(x) if x is not None else None for x in expect[at]]
     if case.get('repeat'):
         d['$repeat'] = 2
     return d, (None if missing else expect)
